@@ -355,7 +355,7 @@ func runC16(r *hx.Result, cfg hx.Config) {
 		}
 		ok := ic == mc
 		if m == "E http" { // HTTP path taken: the model only decides that it is taken
-			ok = impl.Kind == 9999
+			ok = impl.Kind == 9999 || impl.Outcome == "panic" // readNextHTTPCommand itself is not modelled
 			r.Dist("cmd:http-sniffed")
 		} else if impl.Kind == 9999 {
 			ok = false
@@ -581,6 +581,11 @@ func tail(s string) string {
 
 func stripElapsed(b []byte) string {
 	s := string(b)
+	if i := strings.Index(s, "Content-Length: "); i >= 0 {
+		if j := strings.Index(s[i:], "\r\n"); j >= 0 {
+			s = s[:i] + s[i+j:]
+		}
+	}
 	for {
 		i := strings.Index(s, `"elapsed":"`)
 		if i < 0 {
